@@ -43,7 +43,7 @@ func (c *Ctx) mutatesRecv() map[*ssa.Function]string {
 						sum[fn] = "stores to " + Desc(st.Addr) + " (" + fn.Name() + ")"
 					}
 					// closure capturing the receiver by reference
-					if fv, ok := root.(*ssa.FreeVar); ok && f != fn && fv.Name() == fn.Params[0].Name() {
+					if fv, ok := root.(*ssa.FreeVar); ok && f != fn && fv.Name() == PN(fn.Params[0]) {
 						sum[fn] = "stores to " + Desc(st.Addr) + " (closure of " + fn.Name() + ")"
 					}
 				}
@@ -67,7 +67,7 @@ func (c *Ctx) mutatesRecv() map[*ssa.Function]string {
 						continue
 					}
 					r := Root(args[0])
-					if r == ssa.Value(fn.Params[0]) || (func() bool { fv, ok := r.(*ssa.FreeVar); return ok && fv.Name() == fn.Params[0].Name() })() {
+					if r == ssa.Value(fn.Params[0]) || (func() bool { fv, ok := r.(*ssa.FreeVar); return ok && fv.Name() == PN(fn.Params[0]) })() {
 						sum[fn] = "calls " + callee.Name() + ", which " + sum[callee]
 						changed = true
 					}
@@ -194,7 +194,7 @@ func c7Clone(c *Ctx) {
 		c.Check(ok, "R7.3", cl.String(), "clone-fields", cl.Pos(), "the clone shares only the immutable config and copies spaced/openNamespaces; its buffer is fresh from the pool (%v)", got)
 		// Clone copies bytes: on every path (helpers inline) the parent's bytes are written into the clone's buffer,
 		// unless a branch established that there are none
-		rn := cln.Params[0].Name()
+		rn := PN(cln.Params[0])
 		seqs, trunc := ConcPaths(cln, ConcCfg{
 			Inline: func(h *ssa.Function) bool { return h != cl },
 			Event: func(in ssa.Instruction, st *ConcState) string {
@@ -238,7 +238,7 @@ func c7Clone(c *Ctx) {
 	iw := c.Method(CorePath, "ioCore", "With")
 	ioc := c.Named(CorePath, "ioCore")
 	if c.Anchor("R7.3", "zapcore.ioCore.With", iw != nil && ioc != nil) {
-		rc := iw.Params[0].Name()
+		rc := PN(iw.Params[0])
 		// the derived core: a fresh ioCore whose encoder is a clone of the receiver's, sharing sink and enabler
 		got := map[string]string{}
 		var encVal ssa.Value
@@ -297,13 +297,13 @@ func c7Wrappers(c *Ctx) {
 				if bf.Val != nil {
 					call, _ = Strip(bf.Val).(*ssa.Call)
 				}
-				okc := call != nil && IsCallTo(call, "(go.uber.org/zap/zapcore.Core).With") && Desc(Args(call)[0]) == recv.Name()+"."+f && Args(call)[1] == ssa.Value(fields)
+				okc := call != nil && IsCallTo(call, "(go.uber.org/zap/zapcore.Core).With") && Desc(Args(call)[0]) == PN(recv)+"."+f && Args(call)[1] == ssa.Value(fields)
 				if !okc {
 					wrong = append(wrong, f+"="+bf.Desc)
 				}
 				continue
 			}
-			if bf.Desc != recv.Name()+"."+f {
+			if bf.Desc != PN(recv)+"."+f {
 				wrong = append(wrong, f+"="+bf.Desc)
 			}
 		}
@@ -350,7 +350,7 @@ func c7Names(c *Ctx) {
 		c.Check(okEmpty, "R7.5", fn.String(), "empty-segment", fn.Pos(), "an empty name segment returns the receiver unchanged")
 		// the clone's name: s for an unnamed parent, parent.name + "." + s otherwise (any spelling of the join)
 		okFirst, okJoin := false, false
-		rcv, seg := fn.Params[0].Name(), fn.Params[1].Name()
+		rcv, seg := PN(fn.Params[0]), PN(fn.Params[1])
 		for _, st := range FieldStoresOf(fn, c.Named(ZapPath, "Logger")) {
 			if st.Field != "name" {
 				continue
@@ -372,13 +372,13 @@ func c7Names(c *Ctx) {
 	chk := c.Method(ZapPath, "Logger", "check")
 	if c.Anchor("R7.5", "zap.Logger.check", chk != nil) {
 		ef, efOK := entryAtCoreCheck(c)
-		c.Check(efOK && ef["LoggerName"] == chk.Params[0].Name()+".name", "R7.5", chk.String(), "name-into-entry", chk.Pos(), "every entry handed to Core.Check carries the logger's own name (%v)", ef)
+		c.Check(efOK && ef["LoggerName"] == PN(chk.Params[0])+".name", "R7.5", chk.String(), "name-into-entry", chk.Pos(), "every entry handed to Core.Check carries the logger's own name (%v)", ef)
 	}
 	sn := c.Method(ZapPath, "SugaredLogger", "Named")
 	if c.Anchor("R7.5", "zap.SugaredLogger.Named", sn != nil) {
 		ok := false
 		for _, st := range FieldStoresOf(sn, c.Named(ZapPath, "SugaredLogger")) {
-			ok = st.Field == "base" && Desc(st.Instr.Val) == "Named(s.base, name)"
+			ok = st.Field == "base" && len(sn.Params) == 2 && Desc(st.Instr.Val) == "Named("+PN(sn.Params[0])+".base, "+PN(sn.Params[1])+")"
 		}
 		c.Check(ok, "R7.5", sn.String(), "delegates", sn.Pos(), "the sugared Named wraps base.Named(name)")
 	}
@@ -479,7 +479,7 @@ func c7Lazy(c *Ctx) {
 			n++
 			rn := "d"
 			if len(body.Params) > 0 {
-				rn = body.Params[0].Name()
+				rn = PN(body.Params[0])
 			} else if len(body.FreeVars) > 0 {
 				rn = body.FreeVars[0].Name()
 			}
@@ -739,7 +739,7 @@ func c7CloneCarries(c *Ctx, rule string) {
 		if !c.Anchor(rule, "zapcore."+tn+".Clone", fn != nil && jn != nil && len(fn.Params) == 1) {
 			continue
 		}
-		rn := fn.Params[0].Name()
+		rn := PN(fn.Params[0])
 		resolve := func(st *ConcState, v ssa.Value) ssa.Value {
 			for k := 0; k < 16 && v != nil; k++ {
 				switch x := v.(type) {
